@@ -29,7 +29,34 @@ const (
 	// empty regular file makes every read through the pre-reader fail
 	// ("discard of remaining -N bytes").
 	SigEmptyInFirstMember = "read-fails-empty-file-in-first-gzip-member"
+	// db store: GetAttr(rootID) does not wait for the asynchronous TOC import, so the root node is
+	// created with the placeholder attributes (0755, nlink 2, no owner/mtime/xattrs) instead of the
+	// ones of the archive's root entry / its subdirectory count.
+	SigDBRootAttr = "db-root-attr-read-before-init"
+	// db store: readInnerChunks lists every chunk of a file once per chunk of that file in the
+	// member, so a file with two or more chunks in one gzip member makes every pre-reading read of
+	// that member fail ("discard of remaining -N bytes").
+	SigDBTwoChunksInMember = "db-read-fails-two-chunks-of-a-file-in-one-member"
+	// db store: a directory entry that comes after an entry below it (the directory was created
+	// implicitly first) registers the directory as a child of its parent a second time, and the
+	// parent's link count is incremented twice.
+	SigDBLateDir = "db-dir-nlink-double-counted-late-dir-entry"
 )
+
+// TaintedDB reports whether some file has two chunks in the same compressed member (layout of the
+// labelled candidate finding SigDBTwoChunksInMember).
+func TaintedDB(files map[string]*TocFile) bool {
+	for _, f := range files {
+		seen := map[int64]bool{}
+		for _, c := range f.Chunks {
+			if seen[c.Offset] {
+				return true
+			}
+			seen[c.Offset] = true
+		}
+	}
+	return false
+}
 
 // Ent is one tar header to be written (+ the formula of its payload).
 type Ent struct {
@@ -92,6 +119,9 @@ type GenParams struct {
 	MaxEntries int
 	ChunkHint  int64 // file sizes are chosen around multiples of this
 	MaxFile    int64
+	// NoLateDirs: never emit a directory entry after an entry below that directory (labelled
+	// candidate finding SigDBLateDir of the db store).
+	NoLateDirs bool
 }
 
 var verifDirPool = []string{"a", "b", "a/c", "a/c/d", "usr/bin", "b/e"}
@@ -228,7 +258,15 @@ func GenTar(rnd *verifutil.Rand, p GenParams) []Ent {
 			}
 			if dirOK && rnd.Intn(3) == 0 && d != "" {
 				if _, ok := kind[d]; !ok {
-					return d, true
+					late := false
+					for k := range kind {
+						if strings.HasPrefix(k, d+"/") {
+							late = true
+						}
+					}
+					if !(late && p.NoLateDirs) {
+						return d, true
+					}
 				}
 			}
 			b := verifBasePool[rnd.Intn(len(verifBasePool))]
@@ -309,7 +347,7 @@ func GenTar(rnd *verifutil.Rand, p GenParams) []Ent {
 		addNonDir(c)
 	}
 	// explicit directory entries for implicit parents that come AFTER their children
-	if rnd.Intn(3) == 0 {
+	if rnd.Intn(3) == 0 && !p.NoLateDirs {
 		for _, d := range verifDirPool {
 			if _, ok := kind[d]; ok {
 				continue
@@ -340,6 +378,9 @@ func GenTar(rnd *verifutil.Rand, p GenParams) []Ent {
 			continue
 		}
 		if kind[c] == tar.TypeDir {
+			if p.NoLateDirs {
+				continue
+			}
 			ents = append(ents, Ent{Name: rawName(rnd, c, true), Type: tar.TypeDir, Mode: genMode(rnd),
 				UID: genOwner(rnd), GID: genOwner(rnd), MTime: genMTime(rnd), Xattrs: genXattrs(rnd)})
 			continue
@@ -440,8 +481,26 @@ func GenBuildOpts(rnd *verifutil.Rand, ents []Ent) BuildOpts {
 			// the builder refuses a prioritized name below a directory that has no tar entry
 			// ("file: ... not found"); that is the builder's contract (C14), not a subject of C02
 			okParents := true
-			for d := path.Dir(c); d != "." && d != "/" && d != ""; d = path.Dir(d) {
-				if !explicit[d] {
+			// ... and it moves a hardlink's target (chain) first, with the same demand on its parents
+			cur, curE := c, e
+			for hop := 0; hop <= len(ents) && okParents; hop++ {
+				for d := path.Dir(cur); d != "." && d != "/" && d != ""; d = path.Dir(d) {
+					if !explicit[d] {
+						okParents = false
+					}
+				}
+				if curE.Type != tar.TypeLink {
+					break
+				}
+				cur = Clean(curE.Link)
+				found := false
+				for i := len(ents) - 1; i >= 0; i-- {
+					if Clean(ents[i].Name) == cur {
+						curE, found = ents[i], true
+						break
+					}
+				}
+				if !found {
 					okParents = false
 				}
 			}
